@@ -699,8 +699,11 @@ fn eval_image(stats: &mut Stats, ctx: &Ctx, image: &Image, point: &serde_json::V
                 // must be a suffix, and the dropped head must be covered by a truncation
                 let first_present = present.iter().position(|x| *x).unwrap();
                 let is_suffix = present[first_present..].iter().all(|x| *x);
-                let last_dropped = recs[first_present - 1].0;
-                let covered = hist.truncs.iter().any(|(tq, tp)| tq == q && *tp >= last_dropped);
+                // a missing tail (first_present == 0) is never explained by a truncation
+                let covered = first_present > 0 && {
+                    let last_dropped = recs[first_present - 1].0;
+                    hist.truncs.iter().any(|(tq, tp)| tq == q && *tp >= last_dropped)
+                };
                 if !is_suffix || !covered {
                     stats.violation(Violation {
                         property: cfg.property.into(),
